@@ -11,7 +11,10 @@
 (*  img.trees[t]     [name, kind, stored_len, counted, root, pages]        *)
 (*  pages[p]         [id, t ("l" | "b"), d (depth), keys, ch (child ids),  *)
 (*                    ck (stored checksum = recomputed checksum),          *)
-(*                    lo, n (first order-0 page number and extent)]        *)
+(*                    lo, n (first order-0 page number and extent),        *)
+(*                    inl (leaves of multimap tables: per entry the values *)
+(*                    of its inline collection in stored order, <<>> for a *)
+(*                    subtree collection)]                                 *)
 (***************************************************************************)
 EXTENDS Naturals, Sequences, FiniteSets, TLC
 
@@ -59,9 +62,12 @@ Balanced(tree) == \A p, q \in SeqSet(tree.pages) : (p.t = "l" /\ q.t = "l") => p
 \* the stored entry count is the number of entries present
 Counted(tree) == tree.stored_len = tree.counted
 
+\* the values of a key that are stored inline are a strictly increasing list, like the keys of a leaf
+InlineOk(p) == \A i \in 1..Len(p.inl) : Increasing(p.inl[i])
+
 TreeOk(tree) ==
   /\ Shape(tree) /\ Balanced(tree) /\ Counted(tree)
-  /\ \A p \in SeqSet(tree.pages) : p.ck /\ Increasing(p.keys) /\ RoutingOk(tree, p)
+  /\ \A p \in SeqSet(tree.pages) : p.ck /\ Increasing(p.keys) /\ RoutingOk(tree, p) /\ InlineOk(p)
 
 AllPages(img) == UNION {SeqSet(img.trees[t].pages) : t \in 1..Len(img.trees)}
 
